@@ -84,12 +84,24 @@ func (b *payPerInterval) OnUpdate(node store.Node, peers []store.Node) (store.Ba
 	}
 
 	total := new(big.Int)
+	credited := make([]store.NodeID, 0, len(peers))
 	for _, peer := range peers {
 		if err := b.Store.AddNodeBalance(peer.ID, credit); err != nil {
 			// Only bill the client for credit that a peer actually received.
 			continue
 		}
+		credited = append(credited, peer.ID)
 		total.Add(total, credit)
+	}
+	// undo takes this update's charge back, so that a failed update does not
+	// leave credit behind that nobody paid for.
+	undo := func(debited bool) {
+		for _, peerID := range credited {
+			b.Store.AddNodeBalance(peerID, new(big.Int).Neg(credit))
+		}
+		if debited {
+			b.Store.AddNodeBalance(node.ID, total)
+		}
 	}
 	if total.Cmp(new(big.Int)) == 0 {
 		// Nothing was billed.
@@ -100,10 +112,12 @@ func (b *payPerInterval) OnUpdate(node store.Node, peers []store.Node) (store.Ba
 	// when the client turns out to be below the minimum balance, otherwise the
 	// pool becomes insolvent.
 	if err := b.Store.AddNodeBalance(node.ID, new(big.Int).Neg(total)); err != nil {
+		undo(false)
 		return store.Balance{}, err
 	}
 	balance, err := b.Store.GetNodeBalance(node.ID)
 	if err != nil {
+		undo(true)
 		return balance, err
 	}
 
